@@ -6,14 +6,16 @@ problems (empty = valid), `check_root(path)` additionally walks the storage hier
 carries its own inventory and sidecar, no stray entries, no empty directories."""
 import hashlib, json, os, re
 
-ALGS = {"md5": "md5", "sha1": "sha1", "sha256": "sha256", "sha512": "sha512", "blake2b-512": "blake2b"}
+ALGS = {"md5": "md5", "sha1": "sha1", "sha256": "sha256", "sha512": "sha512", "blake2b-512": "blake2b",
+        "blake2b-160": ("blake2b", 20), "blake2b-256": ("blake2b", 32), "blake2b-384": ("blake2b", 48), "sha512/256": "sha512_256"}
 VERSION_RE = re.compile(r"^v(0*)([1-9][0-9]*)$")
-HEXLEN = {"md5": 32, "sha1": 40, "sha256": 64, "sha512": 128, "blake2b-512": 128}
+HEXLEN = {"md5": 32, "sha1": 40, "sha256": 64, "sha512": 128, "blake2b-512": 128, "blake2b-160": 40, "blake2b-256": 64, "blake2b-384": 96, "sha512/256": 64}
 SPEC_TYPES = {"https://ocfl.io/1.0/spec/#inventory": "1.0", "https://ocfl.io/1.1/spec/#inventory": "1.1"}
 
 
 def digest_file(path, alg):
-    h = hashlib.new(ALGS[alg])
+    a = ALGS[alg]
+    h = hashlib.blake2b(digest_size=a[1]) if isinstance(a, tuple) else hashlib.new(a)
     with open(path, "rb") as fh:
         for chunk in iter(lambda: fh.read(1 << 16), b""):
             h.update(chunk)
